@@ -58,6 +58,11 @@ inline std::string check(const std::string& input, unsigned coin, bool with_allo
         if (err.empty() && ledger && k.live.size() != live0) err = std::string("decode (") + model::status_name(r.st) + "): a seed block is left allocated";
         if (err.empty() && memcmp(buf, s.c_str(), s.size() + 1) != 0) err = "decode modified its input string";
     }
+    if (err.empty()) { // the optional lang_out pointer must not influence the outcome
+        polyseed_data* sn = nullptr; int stn = (int)polyseed_decode(buf, (polyseed_coin)coin, nullptr, &sn); lib::Image in{}; if (stn == 0 && sn) { in = lib::store(sn); polyseed_free(sn); }
+        if (stn != r.st) err = std::string("decode with lang_out = NULL returned ") + model::status_name(stn) + " but " + model::status_name(r.st) + " with a lang_out pointer";
+        else if (stn == 0 && in != img_a) err = "decode with lang_out = NULL yields a different seed";
+    }
     if (err.empty() && ledger && !k.ledger_errors.empty()) err = "allocator ledger: " + k.ledger_errors[0];
     if (!ledger) { for (auto& b : k.live) free(b.first); k.live.clear(); k.ledger_errors.clear(); live0 = 0; }
     if (err.empty() && !c14_only) {
@@ -89,6 +94,7 @@ inline std::string check(const std::string& input, unsigned coin, bool with_allo
             if (st3 == 0) { polyseed_free(s3); err = "decode_explicit returned OK although every allocation request failed"; }
             else if (failed_alloc ? st3 != model::MEMORY : st3 != r.E[recog]) err = std::string("decode_explicit under allocation failure returned ") + model::status_name(st3);
             else if (failed_alloc && r.E[recog] != model::OK && r.E[recog] != model::UNSUPPORTED) err = "decode_explicit attempted an allocation before its checksum verdict";
+            else if (!c14_only && r.R == 1 && st3 != st2) err = std::string("with every allocation failing, decode (auto) returns ") + model::status_name(st2) + " but decode_explicit in the recognised language returns " + model::status_name(st3);
         }
         if (err.empty() && ledger && k.live.size() != live0) err = "a seed block is left allocated after a failed allocation";
     }
